@@ -355,6 +355,8 @@ def delegated_fields(req, tr, educed):
     """field terms the implementation delegates to `tr` for"""
     out = []
     if tr == 'Default':
+        if 'expression' in req.topt.get('Default', ''):
+            return []      # a type-level expression builds the whole value: no field is defaulted
         if req.kind == 'enum':
             vs = [v for v in req.variants if v[3]] or (req.variants if len(req.variants) == 1 else [])
         else:
@@ -886,6 +888,11 @@ def c12_corpus(tier, seed):
     for tr in ['Debug', 'Clone', 'PartialEq', 'Hash', 'Default']:
         add('struct', rich, [('S', 'named', [Field(T), Field(PH(U)), Field(U8)], False)], [(tr, None)], where='T: Marker2')
     add('struct', rich, [('S', 'tuple', [Field(T, Deref='marker', DerefMut='marker'), Field(PH(U))], False)], [('Deref', None), ('DerefMut', None)], where='T: Marker2')
+    # Default with a type-level expression: no field is delegated, explicit bound modes still apply (and `new` with them)
+    for mi, mode in enumerate([None, '*', ('list', 'T: ' + TPATH['Default']), ('str', 'U: Marker'), False, ('list', 'T: Marker, U: ' + TPATH['Default'] + ',')]):
+        ex = 'expression = anyv()' + (', new' if mi % 2 else '')
+        add('struct', TU0, [('S', 'named', [Field(T), Field(PH(U)), Field(U8)], False)], [('Default', mode)], topt={'Default': ex})
+        add('enum', TU0, [('A', 'tuple', [Field(T), Field(OPT(U))], False), ('B', 'unit', [], False)], [('Default', mode)], topt={'Default': ex.replace('expression = anyv()', 'expression(anyv())')})
     # companion impls (Eq with PartialEq, PartialOrd with Ord, Copy with Clone) on rich headers, struct and enum: the partner impl is emitted
     # by the primary's handler and must reproduce the header as well (lifetimes first, inline bounds kept, defaults dropped)
     for pair, hand in [([('PartialEq', None), ('Eq', None)], []), ([('PartialOrd', None), ('Ord', None)], ['PartialEq', 'Eq']), ([('Ord', None), ('PartialOrd', None)], ['PartialEq', 'Eq'])]:
